@@ -54,6 +54,41 @@ func genC18(r *Rng, tier string, idx int) *Program {
 	}
 	noShrink := wShrink == 0
 	n := r.Range(8, 35)
+	if idx%10 == 9 {
+		// complete shrinks only (VACUUM rewrites every page), level-0 files only, no
+		// re-open and no time travel: outside every listed precondition of finding
+		// F4, so any difference in this variant is reported. The reader holds its
+		// SHARED lock across several polls while the primary shrinks.
+		p.Variant = "vacuum-under-lock"
+		p.Cfg.AutoVacuum = 0
+		for i := 0; i < r.Range(2, 5); i++ {
+			p.Ops = append(p.Ops, appOp(genTxn(r, &p.Cfg)), Op{Kind: "ls_sync_wait"})
+			if r.Chance(0.5) {
+				p.Ops = append(p.Ops, Op{Kind: "vfs_poll"})
+			}
+			locked := r.Chance(0.7)
+			if locked {
+				p.Ops = append(p.Ops, Op{Kind: "vfs_lock"})
+			}
+			p.Ops = append(p.Ops, appOp(Step{K: "txn", Stmts: []Stmt{{K: "del", T: r.Intn(2), Key: r.Intn(100), N: r.Range(50, 400)}}}))
+			if r.Chance(0.5) {
+				p.Ops = append(p.Ops, Op{Kind: "ls_sync_wait"})
+			}
+			p.Ops = append(p.Ops, appOp(Step{K: "vacuum"}), Op{Kind: "ls_sync_wait"})
+			for j := 0; j < r.Range(1, 3); j++ {
+				if r.Chance(0.4) {
+					p.Ops = append(p.Ops, appOp(genTxn(r, &p.Cfg)), Op{Kind: "ls_sync_wait"})
+				}
+				p.Ops = append(p.Ops, Op{Kind: "vfs_poll"})
+			}
+			if locked {
+				p.Ops = append(p.Ops, Op{Kind: "vfs_unlock"})
+			}
+			p.Ops = append(p.Ops, Op{Kind: "vfs_poll"})
+		}
+		p.Ops = append(p.Ops, Op{Kind: "ls_sync_wait"}, Op{Kind: "vfs_unlock"}, Op{Kind: "vfs_poll"})
+		return p
+	}
 	for i := 0; i < n; i++ {
 		switch r.Pick([]int{30, wShrink, 20, wCompact, wCompact / 2, wCompact / 2, 14, 4, 4, 3, 2}) {
 		case 0:
@@ -120,11 +155,12 @@ func genC18(r *Rng, tier string, idx int) *Program {
 }
 
 type c18state struct {
-	f        *litestream.VFSFile
-	lockedAt ltx.TXID // position when the SHARED lock was taken (0 = not locked)
-	maxPages uint32   // largest committed size of the source seen so far
-	shrunk   bool     // the source's committed size decreased at some point of the run
-	traveled bool
+	f                 *litestream.VFSFile
+	lockedAt          ltx.TXID // position when the SHARED lock was taken (0 = not locked)
+	maxPages          uint32   // largest committed size of the source seen so far
+	shrunk            bool     // the source's committed size decreased at some point of the run
+	traveled          bool
+	openedAfterShrink bool // the replica was opened (index built from scratch) after the source had shrunk
 	// a target time set while a poll was in flight (checked by vfs_check_time)
 	client     *yieldClient
 	travelT    time.Time
@@ -173,13 +209,47 @@ func (c *yieldClient) OpenLTXFile(ctx context.Context, level int, minTXID, maxTX
 	return c.ReplicaClient.OpenLTXFile(ctx, level, minTXID, maxTXID, offset, size)
 }
 
+// partialShrinkFile reports whether the replica ever received a level-0 file
+// whose commit size is below its predecessor's and which does not carry every
+// page of the smaller database (auto_vacuum deletes, incremental_vacuum): the
+// precondition of finding F4. A VACUUM rewrites every page, so the file that
+// records it is complete and replacing the index with it is correct.
+func (e *Env) partialShrinkFile() bool {
+	var prevCommit uint32
+	for _, ent := range e.FS.ArchSeq {
+		if ent.Key.Level != 0 {
+			continue
+		}
+		f, err := decodeLTX(ent.Data)
+		if err != nil {
+			continue
+		}
+		if prevCommit != 0 && f.Hdr.Commit < prevCommit {
+			have := map[uint32]bool{}
+			for _, pg := range f.Order {
+				have[pg] = true
+			}
+			lock := ltx.LockPgno(f.Hdr.PageSize)
+			for pg := uint32(1); pg <= f.Hdr.Commit; pg++ {
+				if pg != lock && !have[pg] {
+					return true
+				}
+			}
+		}
+		prevCommit = f.Hdr.Commit
+	}
+	return false
+}
+
 func (e *Env) c18facts(st *c18state, v *Violation) *Violation {
 	if v == nil {
 		return nil
 	}
 	v.Facts["source_shrunk"] = st.shrunk
+	v.Facts["partial_shrink"] = e.partialShrinkFile()
 	v.Facts["higher_level_files"] = len(e.FS.Listing(1))+len(e.FS.Listing(2)) > 0
 	v.Facts["time_travel_used"] = st.traveled
+	v.Facts["opened_after_shrink"] = st.openedAfterShrink
 	return v
 }
 
@@ -273,6 +343,9 @@ func (e *Env) c18check0(st *c18state, when string) *Violation {
 func openVFS(e *Env, st *c18state, set func(*Env, *Violation)) (string, bool) {
 	cl := &yieldClient{ReplicaClient: file.NewReplicaClient(e.RepDir), e: e}
 	st.client = cl
+	if st.shrunk {
+		st.openedAfterShrink = true
+	}
 	f := litestream.NewVFSFile(cl, "db", e.probeLogger())
 	f.PollInterval = 10000 * time.Hour // polls are issued by the program, one at a time
 	f.CacheSize = []int{1, 64 << 10, 10 << 20}[int(e.Prog.Seed%3)]
